@@ -14,6 +14,8 @@ C13 — a feature reported as supported is backed by an implementation.
 * `claims_sound`, `mayReport_sound`  the lift from "some state" to the finite table:
                         whether a protocol can answer non-Unsupported for a feature is decided
                         by two Boolean conditions at most;
+* `setup_paths_agree`   the per-protocol tables do not depend on the set-up path (tunnel, unified
+                        RAOP, Companion service present but not set up, …);
 * `protoFeature_fresh`  the hand-modelled shape of the five get_feature implementations
                         reproduces the regenerated fresh-state answers of the real objects.
 -/
@@ -55,6 +57,16 @@ theorem mayReport_sound (S : PSet) (env : Env) (f : Feature)
 
 theorem table :
     (PSet.all.all fun S => !S.nonempty || Feature.all.all fun f => rowOk S f) = true := by
+  decide +kernel
+
+/-- every extracted set-up path (MRP over the AirPlay tunnel with/without a Companion service,
+    RAOP set up by AirPlay, single-service configurations) hands the facade, for its protocol,
+    the same interfaces, overridden members and feature set as the protocol's native `setup()`:
+    `table` and `reported_is_backed` speak about every such path -/
+theorem setup_paths_agree :
+    (setupPaths.all fun e =>
+      e.provides == provides e.proto && e.implements == Member.all.filter (fun m => impl e.proto m)
+        && e.features == featureSet e.proto) = true := by
   decide +kernel
 
 theorem backed_any_takeover (S : PSet) (f : Feature) (t : Iface → List Proto)
